@@ -20,19 +20,21 @@ Print Assumptions C15_parse_link.
 Theorem C15_exactly_once :
   forall (L : list item) (cap : nat) (ds : nat -> decision)
          (render : nat -> url -> url -> str) (trailer : nat -> str)
-         (resolve : url -> str -> option url) (c : cfg) (path last0 : str) (fuel : nat),
+         (resolve : url -> str -> option url) (c : cfg) (cu : cursor) (npath : nat -> str -> str) (vis : item -> bool)
+         (path last0 : str) (fuel : nat),
+    cursor_ok cu ->
     c_kind c <> KReferrers ->
     NoDup (map fst L) -> (forall it, In it L -> fst it <> []) ->
     (forall i base x, In x (map fst L) ->
-       contains c_gt (render i base (link_target (ds i) base x)) = false) ->
+       contains c_gt (render i base (link_target ds cu npath i base x)) = false) ->
     (forall i base x, In x (map fst L) ->
-       resolve base (render i base (link_target (ds i) base x)) = Some (link_target (ds i) base x)) ->
+       resolve base (render i base (link_target ds cu npath i base x)) = Some (link_target ds cu npath i base x)) ->
     (forall i, (Z.of_N (d_doc_len (ds i)) <= eff_limit (c_limit c))%Z) ->
     (length (after last0 L) < fuel)%nat ->
-    let t := loop (reg_serve (c_kind c) L cap ds render trailer) resolve (fun _ => false) c
+    let t := loop (reg_serve (c_kind c) cu npath vis L cap ds render trailer) resolve (fun _ => false) c
                   fuel 0 0 (mkUrl path []) last0 in
     t_out t = Done /\
-    concat (t_pages t) = after last0 L /\
+    concat (t_pages t) = filter vis (after last0 L) /\
     NoDup (map fst (concat (t_pages t))) /\
     (length (t_reqs t) <= S (length (after last0 L)))%nat.
 Proof. exact listing_exactly_once. Qed.
@@ -44,36 +46,30 @@ Print Assumptions C15_exactly_once.
 Theorem C15_filter :
   forall (L : list item) (cap : nat) (ds : nat -> decision)
          (render : nat -> url -> url -> str) (trailer : nat -> str)
-         (resolve : url -> str -> option url) (c : cfg) (path : str) (fuel : nat),
+         (resolve : url -> str -> option url) (c : cfg) (cu : cursor) (npath : nat -> str -> str) (vis : item -> bool)
+         (path : str) (fuel : nat),
+    cursor_ok cu ->
     c_kind c = KReferrers ->
     NoDup (map fst L) -> (forall it, In it L -> fst it <> []) ->
     (forall i base x, In x (map fst L) ->
-       contains c_gt (render i base (link_target (ds i) base x)) = false) ->
+       contains c_gt (render i base (link_target ds cu npath i base x)) = false) ->
     (forall i base x, In x (map fst L) ->
-       resolve base (render i base (link_target (ds i) base x)) = Some (link_target (ds i) base x)) ->
+       resolve base (render i base (link_target ds cu npath i base x)) = Some (link_target ds cu npath i base x)) ->
     (forall i, (Z.of_N (d_doc_len (ds i)) <= eff_limit (c_limit c))%Z) ->
     (forall i, qget k_at (d_extra (ds i)) = None) ->
     (length L < fuel)%nat ->
-    let t := loop (reg_serve KReferrers L cap ds render trailer) resolve (fun _ => false) c
+    let t := loop (reg_serve KReferrers cu npath vis L cap ds render trailer) resolve (fun _ => false) c
                   fuel 0 0 (mkUrl path (referrers_query (c_at c))) [] in
     t_out t = Done /\
-    concat (t_pages t) = filter_referrers L (c_at c) /\
+    concat (t_pages t) = filter_referrers (filter vis L) (c_at c) /\
     (length (t_reqs t) <= S (length L))%nat.
 Proof. exact referrers_exactly_once. Qed.
 Print Assumptions C15_filter.
 
 (* ---------- the hypotheses are satisfiable: a concrete registry and a toy net/url ---------- *)
 
-Definition ex_L : list item := [(b "a", b "t1"); (b "b", b "t2"); (b "c", b "t1"); (b "d", b "t1")].
-Definition ex_ds (i : nat) : decision :=
-  mkDec (1 + Nat.modulo i 2) [(b "x", VS (b "1"))] (Nat.even i) [] (if Nat.even i then [] else b "foo,artifactType") 10 1.
-(* link text = the cursor; the toy resolver rebuilds the target from it *)
-Definition ex_render (i : nat) (base tgt : url) : str := qget_s k_last (u_query tgt).
-Definition ex_resolve (base : url) (t : str) : option url := Some (link_target (ex_ds 0) base t).
-Definition ex_cfg (k : kind) : cfg := mkCfg k 3 100 (b "t1").
-
 Example C15_example_tags :
-  let t := loop (reg_serve KTags ex_L 2 ex_ds ex_render (fun _ => b "; rel=""next""")) ex_resolve
+  let t := loop (reg_serve KTags CLast (fun _ p => p) (fun _ => true) ex_L 2 ex_ds ex_render (fun _ => b "; rel=""next""")) ex_resolve
                 (fun _ => false) (ex_cfg KTags) 5 0 0 (mkUrl (b "/v2/r/tags/list") []) (b "a") in
   t_out t = Done /\ map fst (concat (t_pages t)) = [b "b"; b "c"; b "d"] /\ length (t_reqs t) = 2%nat.
 Proof. vm_compute. repeat split. Qed.
@@ -81,24 +77,32 @@ Proof. vm_compute. repeat split. Qed.
 Example C15_example_hypotheses :
   NoDup (map fst ex_L) /\ (forall it, In it ex_L -> fst it <> []) /\
   (forall i base x, In x (map fst ex_L) ->
-     contains c_gt (ex_render i base (link_target (ex_ds i) base x)) = false) /\
+     contains c_gt (ex_render i base (link_target ex_ds CLast (fun _ p => p) i base x)) = false) /\
   (forall i base x, In x (map fst ex_L) ->
-     ex_resolve base (ex_render i base (link_target (ex_ds i) base x)) = Some (link_target (ex_ds i) base x)) /\
+     ex_resolve base (ex_render i base (link_target ex_ds CLast (fun _ p => p) i base x)) = Some (link_target ex_ds CLast (fun _ p => p) i base x)) /\
   (forall i, (Z.of_N (d_doc_len (ex_ds i)) <= eff_limit (c_limit (ex_cfg KTags)))%Z) /\
   (forall i, qget k_at (d_extra (ex_ds i)) = None).
-Proof.
-  split. { repeat constructor; simpl; intuition discriminate. }
-  split. { simpl. intros it H. repeat (destruct H as [<-|H]; [discriminate|]). contradiction. }
-  split. { intros i base x H. unfold ex_render, link_target, qget_s. cbn [u_query qget]. rewrite str_eqb_refl.
-           simpl in H. repeat (destruct H as [<-|H]; [reflexivity|]). contradiction. }
-  split. { intros i base x _. unfold ex_resolve, ex_render, link_target, qget_s. cbn [u_query qget].
-           rewrite str_eqb_refl. reflexivity. }
-  split. { intro i. vm_compute. discriminate. }
-  intro i. reflexivity.
-Qed.
+Proof. exact example_hypotheses. Qed.
+
+(* the same registry paging one item per page with an opaque cursor "token=p;<name>" under
+   another path, not showing entry "c": its page is empty, the listing goes on *)
+Example C15_example_token_cursor :
+  let t := loop (reg_serve KTags ex_cu ex_npath ex_vis ex_L 1 ex_ds ex_render_tok (fun _ => [])) ex_resolve_tok
+                (fun _ => false) (ex_cfg KTags) 5 0 0 (mkUrl (b "/v2/r/tags/list") []) (b "a") in
+  t_out t = Done /\ map (map fst) (t_pages t) = [[b "b"]; []; [b "d"]] /\
+  map u_path (t_reqs t) = [b "/v2/r/tags/list"; b "/v2/r/tags/list/~p"; b "/v2/r/tags/list/~p"].
+Proof. vm_compute. repeat split. Qed.
+
+Example C15_example_token_hypotheses :
+  cursor_ok ex_cu /\
+  (forall i base x, In x (map fst ex_L) ->
+     contains c_gt (ex_render_tok i base (link_target ex_ds ex_cu ex_npath i base x)) = false) /\
+  (forall i base x, In x (map fst ex_L) ->
+     ex_resolve_tok base (ex_render_tok i base (link_target ex_ds ex_cu ex_npath i base x)) = Some (link_target ex_ds ex_cu ex_npath i base x)).
+Proof. exact example_token_hypotheses. Qed.
 
 Example C15_example_referrers :
-  let t := loop (reg_serve KReferrers ex_L 2 ex_ds ex_render (fun _ => [])) ex_resolve
+  let t := loop (reg_serve KReferrers CLast (fun _ p => p) (fun _ => true) ex_L 2 ex_ds ex_render (fun _ => [])) ex_resolve
                 (fun _ => false) (ex_cfg KReferrers) 6 0 0
                 (mkUrl (b "/v2/r/referrers/d") (referrers_query (b "t1"))) [] in
   t_out t = Done /\ map fst (concat (t_pages t)) = [b "a"; b "c"; b "d"].
@@ -130,20 +134,21 @@ Print Assumptions C15_stops_on_error.
 Theorem C15_exactly_once_any_callback :
   forall (L : list item) (cap : nat) (ds : nat -> decision)
          (render : nat -> url -> url -> str) (trailer : nat -> str)
-         (resolve : url -> str -> option url) (c : cfg) (cb_fail : nat -> bool)
-         (path last0 : str) (fuel : nat),
+         (resolve : url -> str -> option url) (c : cfg) (cu : cursor) (npath : nat -> str -> str) (vis : item -> bool)
+         (cb_fail : nat -> bool) (path last0 : str) (fuel : nat),
+    cursor_ok cu ->
     c_kind c <> KReferrers ->
     NoDup (map fst L) -> (forall it, In it L -> fst it <> []) ->
     (forall i base x, In x (map fst L) ->
-       contains c_gt (render i base (link_target (ds i) base x)) = false) ->
+       contains c_gt (render i base (link_target ds cu npath i base x)) = false) ->
     (forall i base x, In x (map fst L) ->
-       resolve base (render i base (link_target (ds i) base x)) = Some (link_target (ds i) base x)) ->
+       resolve base (render i base (link_target ds cu npath i base x)) = Some (link_target ds cu npath i base x)) ->
     (forall i, (Z.of_N (d_doc_len (ds i)) <= eff_limit (c_limit c))%Z) ->
     (length (after last0 L) < fuel)%nat ->
-    let t := loop (reg_serve (c_kind c) L cap ds render trailer) resolve cb_fail c
+    let t := loop (reg_serve (c_kind c) cu npath vis L cap ds render trailer) resolve cb_fail c
                   fuel 0 0 (mkUrl path []) last0 in
-    (t_out t = Done /\ concat (t_pages t) = after last0 L) \/
-    (t_out t = ErrCallback /\ exists rest', after last0 L = concat (t_pages t) ++ rest').
+    (t_out t = Done /\ concat (t_pages t) = filter vis (after last0 L)) \/
+    (t_out t = ErrCallback /\ exists rest', filter vis (after last0 L) = concat (t_pages t) ++ rest').
 Proof. exact listing_prefix_any_callback. Qed.
 Print Assumptions C15_exactly_once_any_callback.
 
@@ -169,13 +174,16 @@ Print Assumptions C15_no_empty_referrers_page.
 
 (* ---------- the limit ---------- *)
 
-(* MaxMetadataBytes <= 0 means the (generated) default; at most that many bytes pass the
-   reader; a page is produced only from a well-formed document that fits, a larger document
+(* MaxMetadataBytes <= 0 means the (generated) default; what passes limitReader ([seen]) is a prefix of the body
+   of at most that many bytes; a page is produced only from a well-formed document that fits, a larger document
    is an error; a successful listing decoded only fitting documents. *)
 Theorem C15_limit :
   (forall n, (n <= 0)%Z -> eff_limit n = defaultMaxMetadataBytes) /\
   (forall n, (0 < n)%Z -> eff_limit n = n) /\
-  (forall limit total, (Z.of_N (max_read limit total) <= eff_limit limit)%Z /\ (max_read limit total <= total)%N) /\
+  (forall limit body,
+     (Z.of_nat (length (seen limit body)) <= eff_limit limit)%Z /\
+     (exists rest, body = seen limit body ++ rest) /\
+     ((Z.of_nat (length body) <= eff_limit limit)%Z -> seen limit body = body)) /\
   (forall c rs p, handle c rs = inr p ->
      rs_json_ok rs = true /\ (Z.of_N (rs_doc_len rs) <= eff_limit (c_limit c))%Z) /\
   (forall c rs, (eff_limit (c_limit c) < Z.of_N (rs_doc_len rs))%Z -> exists e, handle c rs = inl e) /\
@@ -196,21 +204,23 @@ Print Assumptions C15_limit.
 Theorem C15_limit_listing :
   forall (L : list item) (cap : nat) (ds : nat -> decision)
          (render : nat -> url -> url -> str) (trailer : nat -> str)
-         (resolve : url -> str -> option url) (c : cfg) (path last0 : str) (fuel : nat),
+         (resolve : url -> str -> option url) (c : cfg) (cu : cursor) (npath : nat -> str -> str) (vis : item -> bool)
+         (path last0 : str) (fuel : nat),
+    cursor_ok cu ->
     NoDup (map fst L) -> (forall it, In it L -> fst it <> []) ->
     (forall i base x, In x (map fst L) ->
-       contains c_gt (render i base (link_target (ds i) base x)) = false) ->
+       contains c_gt (render i base (link_target ds cu npath i base x)) = false) ->
     (forall i base x, In x (map fst L) ->
-       resolve base (render i base (link_target (ds i) base x)) = Some (link_target (ds i) base x)) ->
+       resolve base (render i base (link_target ds cu npath i base x)) = Some (link_target ds cu npath i base x)) ->
     (c_kind c = KReferrers -> forall i, qget k_at (d_extra (ds i)) = None) ->
     (length (start_rest c last0 L) < fuel)%nat ->
-    let t := loop (reg_serve (c_kind c) L cap ds render trailer) resolve (fun _ => false) c
+    let t := loop (reg_serve (c_kind c) cu npath vis L cap ds render trailer) resolve (fun _ => false) c
                   fuel 0 0 (mkUrl path (start_query c)) last0 in
     let fit := fun i => (Z.of_N (d_doc_len (ds i)) <= eff_limit (c_limit c))%Z in
-    (t_out t = Done /\ concat (t_pages t) = view c (start_rest c last0 L) /\
+    (t_out t = Done /\ concat (t_pages t) = view c vis (start_rest c last0 L) /\
      forall j, (j < length (t_reqs t))%nat -> fit j) \/
     (t_out t = ErrDecode /\
-     exists n j, concat (t_pages t) = view c (firstn n (start_rest c last0 L)) /\
+     exists n j, concat (t_pages t) = view c vis (firstn n (start_rest c last0 L)) /\
                  length (t_reqs t) = S j /\ ~ fit j /\ forall j', (j' < j)%nat -> fit j').
 Proof. exact listing_limit. Qed.
 Print Assumptions C15_limit_listing.
@@ -235,19 +245,32 @@ Print Assumptions C15_limit_size.
 
 (* Referrers through the tag schema (registries without referrers API): an index larger
    than the limit is an error with nothing delivered; otherwise the callback gets, in one
-   non-empty page, exactly the referrers of the requested artifact type; a failing callback
-   is the listing's error *)
+   non-empty page, the referrers of the requested artifact type among the cleaned index
+   (empty entries skipped, a repeated descriptor only once), no referrer twice; a failing
+   callback is the listing's error *)
 Theorem C15_tag_schema :
   forall limit size items a cb_fail,
     let r := tag_schema limit true size items a cb_fail in
     ((eff_limit limit < size)%Z -> r = ([], ErrSize)) /\
     ((size <= eff_limit limit)%Z ->
        Forall (fun p => p <> []) (fst r) /\
-       concat (fst r) = filter_referrers items a /\
+       concat (fst r) = filter_referrers (clean_index items) a /\
+       NoDup (map fst (concat (fst r))) /\
        (snd r = Done \/ (snd r = ErrCallback /\ cb_fail 0%nat = true /\ fst r <> [])) /\
        (cb_fail 0%nat = false -> snd r = Done)).
 Proof. exact tag_schema_spec. Qed.
 Print Assumptions C15_tag_schema.
+
+(* the cleaned index: every non-empty name of the index exactly once, entries of the index
+   only; an index without repeated or empty entries is left as it is *)
+Theorem C15_tag_schema_clean_index :
+  forall items,
+    NoDup (map fst (clean_index items)) /\
+    (forall x, In x (clean_index items) -> In x items /\ fst x <> []) /\
+    (forall x, In x items -> fst x <> [] -> In (fst x) (map fst (clean_index items))) /\
+    (NoDup (map fst items) -> (forall x, In x items -> fst x <> []) -> clean_index items = items).
+Proof. exact clean_index_spec. Qed.
+Print Assumptions C15_tag_schema_clean_index.
 
 (* ---------- Repository.Referrers: capability detection around the two paths ---------- *)
 
@@ -289,20 +312,22 @@ Print Assumptions C15_referrers_callback_error.
 Theorem C15_referrers_unknown_with_api :
   forall (L : list item) (cap : nat) (ds : nat -> decision)
          (render : nat -> url -> url -> str) (trailer : nat -> str)
-         (resolve : url -> str -> option url) (c : cfg) (path : str) (fuel : nat) cbu ts,
+         (resolve : url -> str -> option url) (c : cfg) (cu : cursor) (npath : nat -> str -> str) (vis : item -> bool)
+         (path : str) (fuel : nat) cbu ts,
+    cursor_ok cu ->
     c_kind c = KReferrers ->
     NoDup (map fst L) -> (forall it, In it L -> fst it <> []) ->
     (forall i base x, In x (map fst L) ->
-       contains c_gt (render i base (link_target (ds i) base x)) = false) ->
+       contains c_gt (render i base (link_target ds cu npath i base x)) = false) ->
     (forall i base x, In x (map fst L) ->
-       resolve base (render i base (link_target (ds i) base x)) = Some (link_target (ds i) base x)) ->
+       resolve base (render i base (link_target ds cu npath i base x)) = Some (link_target ds cu npath i base x)) ->
     (forall i, (Z.of_N (d_doc_len (ds i)) <= eff_limit (c_limit c))%Z) ->
     (forall i, qget k_at (d_extra (ds i)) = None) ->
     (length L < fuel)%nat ->
-    let api := loop (reg_serve KReferrers L cap ds render trailer) resolve (fun _ => false) c
+    let api := loop (reg_serve KReferrers cu npath vis L cap ds render trailer) resolve (fun _ => false) c
                     fuel 0 0 (mkUrl path (referrers_query (c_at c))) [] in
     let w := referrers_wrap RUnknown cbu api ts in
-    w_out w = Done /\ concat (w_pages w) = filter_referrers L (c_at c) /\
+    w_out w = Done /\ concat (w_pages w) = filter_referrers (filter vis L) (c_at c) /\
     w_state w = RSupported /\ w_fell_back w = false.
 Proof. exact referrers_unknown_with_api. Qed.
 Print Assumptions C15_referrers_unknown_with_api.
@@ -326,7 +351,7 @@ Print Assumptions C15_referrers_unknown_without_api.
    class was swallowed, the tag schema run, a referrer delivered twice, success returned *)
 Theorem C15_referrers_fallback_refuted :
   exists (cb_fail : nat -> bool),
-    let api := loop (reg_serve KReferrers wit_L 5 wit_ds wit_render (fun _ => [])) wit_resolve
+    let api := loop (reg_serve KReferrers CLast (fun _ p => p) (fun _ => true) wit_L 5 wit_ds wit_render (fun _ => [])) wit_resolve
                     cb_fail wit_cfg 9 0 0 wit_u [] in
     let w := referrers_wrap_prefix RUnknown true api (wit_ts cb_fail) in
     t_out api = ErrCallback /\ w_out w = Done /\ w_state w = RUnsupported /\
@@ -367,6 +392,17 @@ Theorem C15_ping_agrees :
        (fst (ping st rs) = RUnknown <-> snd (ping st rs) = None)).
 Proof. exact ping_spec. Qed.
 Print Assumptions C15_ping_agrees.
+
+(* the code before fix 635f618 (mk_request_prefix): with a page size configured, a link
+   parameter that url.ParseQuery rejects -- here the registry's cursor token=p;b -- is lost *)
+Theorem C15_lossy_query_refuted :
+  let link := mkUrl (b "/v2/r/tags/list") [(b "token", VS (b "p;b")); (b "x", VS (b "1"))] in
+  let cu := CToken (b "token") (b "p;") in
+  cursor_read cu (u_query (mk_request_prefix wit_parses (mkCfg KTags 2 0 []) link [])) = [] /\
+  cursor_read cu (u_query (mk_request (mkCfg KTags 2 0 []) link [])) = b "b" /\
+  mk_request_prefix wit_parses (mkCfg KTags 0 0 []) link [] = link.
+Proof. exact lossy_query_refuted. Qed.
+Print Assumptions C15_lossy_query_refuted.
 
 (* ---------- several link-values / Link lines ---------- *)
 
@@ -417,20 +453,8 @@ Print Assumptions C15_last_on_sorted_registry.
 
 (* ---------- further examples ---------- *)
 
-(* a toy stream decoder: the value is everything up to the first '}' *)
-Fixpoint ex_decode (s : str) : option str :=
-  match s with
-  | [] => None
-  | ch :: s' => if ch =? 125 then Some [ch]
-               else match ex_decode s' with Some v => Some (ch :: v) | None => None end
-  end.
-
 Example C15_example_document : is_document str ex_decode (b "{ab}") (b "{ab}").
-Proof.
-  split.
-  - intro tail. reflexivity.
-  - intros k H. simpl in H. do 4 (destruct k as [|k]; [reflexivity|]). lia.
-Qed.
+Proof. exact example_document. Qed.
 
 Example C15_example_limit_bytes :
   ex_decode (seen 4 (b "{ab}" ++ b "  ")) = Some (b "{ab}") /\ ex_decode (seen 3 (b "{ab}" ++ b "  ")) = None.
@@ -443,7 +467,7 @@ Example C15_example_oci_tags :
 Proof. reflexivity. Qed.
 
 Example C15_example_stops :
-  let t := loop (reg_serve KTags ex_L 1 ex_ds ex_render (fun _ => [])) ex_resolve
+  let t := loop (reg_serve KTags CLast (fun _ p => p) (fun _ => true) ex_L 1 ex_ds ex_render (fun _ => [])) ex_resolve
                 (fun k => (k =? 1)%nat) (ex_cfg KTags) 9 0 0 (mkUrl (b "/v2/r/tags/list") []) [] in
   t_out t = ErrCallback /\ map (map fst) (t_pages t) = [[b "a"]; [b "b"]] /\ length (t_reqs t) = 2%nat.
 Proof. vm_compute. repeat split. Qed.
@@ -451,7 +475,7 @@ Proof. vm_compute. repeat split. Qed.
 (* a document over the limit on the second page: one whole page delivered, then ErrDecode *)
 Example C15_example_limit_listing :
   let ds := fun i => mkDec 1 [] false [] [] (if (i =? 1)%nat then 101 else 100) 0 in
-  let t := loop (reg_serve KTags ex_L 1 ds ex_render (fun _ => [])) ex_resolve
+  let t := loop (reg_serve KTags CLast (fun _ p => p) (fun _ => true) ex_L 1 ds ex_render (fun _ => [])) ex_resolve
                 (fun _ => false) (ex_cfg KTags) 9 0 0 (mkUrl (b "/v2/r/tags/list") []) [] in
   t_out t = ErrDecode /\ map (map fst) (t_pages t) = [[b "a"]] /\ length (t_reqs t) = 2%nat.
 Proof. vm_compute. repeat split. Qed.
